@@ -261,6 +261,8 @@ def run(fx, chk, tier):
     n = eng.run()
     chk.floor("PF", "panic obligations in reader closure", n, 400)
     chk.analysed["closure_functions"] = len(eng.clo)
+    chk.closure_ids = sorted(eng.clo)
+    chk.engine = eng
     chk.analysed["entries"] = len(ents)
     chk.analysed["memsize_functions"] = len(eng.ms)
     return chk.finish(
